@@ -582,8 +582,7 @@ def _clear_check(fns, sel, title):
                 bad.append((k, "the sealed memtables survive clear(): a rotated but unflushed memtable stays readable and is flushed later", path))
             if not (isinstance(f[2], Obj) and f[2].kind == "NewVersion"):
                 bad.append((k, "the version of the cleared super version is not Version::new(..): tables survive clear()", path))
-            elif isinstance(f[2].args[0], BV):
-                queries.append(("id:%d" % k, path.pc + ["(not (= %s (bvadd old_version_id (_ bv1 64))))" % f[2].args[0].t]))
+
         if queries:
             res, dt, raw = symex.solve_batch(ex.decls, queries, "cvc5int", timeout)
             out.update(z3_s=round(dt, 2), queries=len(queries), assertions=sum(len(a) for _, a in queries))
@@ -604,7 +603,7 @@ def _clear_check(fns, sel, title):
         return out
 
     x = XCheck(title, cf, runner)
-    x.requires = [("", "", "active memtable fresh, sealed memtables empty, version = Version::new(old id + 1, tree type)")]
+    x.requires = [("", "", "active memtable fresh, sealed memtables empty, version = Version::new(..) (an empty version)")]
     x.shapes = "n/a (straight-line closure)"
     return x
 
